@@ -600,9 +600,10 @@ func printGrouped(prefix string, m *Message, a *AVP, indent int) string {
 			}
 		} else {
 			if ga.Data.Type() == GroupedAVPType {
-				indent++
-				tabs := indentTabs(indent)
-				fmt.Fprintf(&b, "%s%s %s\n", tabs, dictAVP.Name, printGrouped(tabs, m, ga, indent))
+				// Every member of this group is one level deeper than
+				// the group, however many grouped members precede it.
+				tabs := indentTabs(indent + 1)
+				fmt.Fprintf(&b, "%s%s %s\n", tabs, dictAVP.Name, printGrouped(tabs, m, ga, indent+1))
 			} else {
 				fmt.Fprintf(&b, "%s\t%s %s,\n", prefix, dictAVP.Name, ga)
 			}
